@@ -154,9 +154,11 @@ pub enum Regime {
     Up,
     Down,
     Flat,
+    /// few values of both signs including both zeros: -2l, -l, -0.0, +0.0, l, 2l (ties, sign changes)
+    Signed,
 }
-pub const ALL_REGIMES: [Regime; 10] =
-    [Regime::Walk, Regime::Trend, Regime::Osc, Regime::Saw, Regime::Alt, Regime::Plateau, Regime::Few, Regime::Up, Regime::Down, Regime::Flat];
+pub const ALL_REGIMES: [Regime; 11] =
+    [Regime::Walk, Regime::Trend, Regime::Osc, Regime::Saw, Regime::Alt, Regime::Plateau, Regime::Few, Regime::Up, Regime::Down, Regime::Flat, Regime::Signed];
 
 /// Deterministic description of a stream: the same descriptor always expands to the same ticks
 /// (used both while generating and by replay files for long streams).
@@ -166,6 +168,9 @@ pub struct StreamDesc {
     pub level: crate::sut::Fx,
     pub saw: usize,
     pub seed: u64,
+    /// all prices negated (a market quoted below zero: spreads, some futures)
+    #[serde(default)]
+    pub neg: bool,
 }
 
 #[derive(Clone, Debug)]
@@ -173,6 +178,7 @@ pub struct World {
     pub regime: Regime,
     pub level: f64,
     pub saw: usize,
+    pub neg: bool,
     x: f64,
     t: u64,
     /// net number of x1000 regime shifts applied so far (kept within -2..=2 so magnitudes stay bounded)
@@ -182,12 +188,12 @@ pub struct World {
 
 impl World {
     pub fn from_desc(d: &StreamDesc) -> World {
-        World { regime: d.regime, level: d.level.0, saw: d.saw.max(2), x: d.level.0, t: 0, shift_exp: 0, rng: Rng::new(d.seed) }
+        World { regime: d.regime, level: d.level.0, saw: d.saw.max(2), neg: d.neg, x: d.level.0, t: 0, shift_exp: 0, rng: Rng::new(d.seed) }
     }
     pub fn random_desc(rng: &mut Rng) -> StreamDesc {
         let regime = *rng.pick(&ALL_REGIMES);
         let level = 10f64.powf(rng.uniform(-3.0, 6.0));
-        StreamDesc { regime, level: crate::sut::Fx(level), saw: rng.range(2, 31), seed: rng.u64() }
+        StreamDesc { regime, level: crate::sut::Fx(level), saw: rng.range(2, 31), seed: rng.u64(), neg: rng.chance(0.08) }
     }
     pub fn random(rng: &mut Rng) -> World {
         World::from_desc(&World::random_desc(rng))
@@ -246,11 +252,12 @@ impl World {
             Regime::Up => l * (1.0 + 0.01 * t as f64),
             Regime::Down => l * 1000.0 / (1.0 + 0.01 * t as f64),
             Regime::Flat => l,
+            Regime::Signed => [-2.0 * l, -l, -0.0, 0.0, l, 2.0 * l][self.rng.below(6) as usize],
         };
         self.t += 1;
         x
     }
-    /// one clean, valid bar (low <= open,close <= high, volume >= 0, all finite and positive)
+    /// one clean, valid bar (low <= open,close <= high, volume >= 0, all finite; positive except in the Signed regime and in negated markets)
     pub fn clean(&mut self) -> Input {
         let o = self.x;
         let c = self.price();
@@ -261,9 +268,13 @@ impl World {
         } else {
             let a = self.rng.f64();
             let b = self.rng.f64();
-            (hi * (1.0 + 0.01 * a), lo * (1.0 - 0.01 * b))
+            (hi + hi.abs() * 0.01 * a, lo - lo.abs() * 0.01 * b)
         };
         let v = if self.rng.chance(0.1) { 0.0 } else { 1000.0 * self.rng.uniform(0.0, 2.0) };
+        if self.neg {
+            // negated market: the bar stays well-formed (low <= open, close <= high)
+            return Input { o: -o, h: -l, l: -h, c: -c, v };
+        }
         Input { o, h, l, c, v }
     }
 }
